@@ -22,11 +22,10 @@ ACCEPTED_WRITES: Dict[str, str] = {
     "cube.py::_BaseMeasure [read-only flag]": "makes the cached raw array read-only (the mechanism that protects it); `flags.writeable = False` or `setflags(write=False)`",
     "dimension.py::_ElementIdShim [store 'subvar_alias']": "adds a key that no value computation reads (aliases are read from value.references.alias / id); rewriting gives the same value",
     "dimension.py::_ElementIdShim [store 'datetime_value']": "copy of el['value'], which is never modified",
-    "dimension.py::_ElementIdShim [store 'elements']": "keys replaced by translate_element_id, a retraction: translating an alias gives the alias; None keys are dropped",
-    "dimension.py::_ElementIdShim [store 'element_ids']": "ids replaced by translate_element_id (retraction; total on {alias, None})",
-    "dimension.py::_ElementIdShim [store 'top']": "same",
-    "dimension.py::_ElementIdShim [store 'bottom']": "same",
     "util.py::lazyproperty [store __dict__]": "the descriptor's own cache store",
+    # NOT accepted (D23): stores of 'elements' / 'element_ids' / 'top' / 'bottom' into the CALLER's transforms dict by the id
+    # shim.  The translation is a retraction only with respect to ONE dimension; the same dict used for a cube with other
+    # sub-variables would find keys already rewritten to foreign aliases and drop them.  The shim rewrites a copy.
 }
 
 
@@ -34,7 +33,7 @@ def run(ctx: Ctx):
     ctx.explanation = (
         "EFFECTS: complete inventory of writes (stores, augmented assignments, del, mutating method calls, out= arguments) "
         "with a freshness classification of the written object; every write to an object not created by the writing "
-        "function must be one of the 12 listed sites, each with its idempotence argument (the retraction property of the "
+        "function must be one of the 8 listed sites, each with its idempotence argument (the retraction property of the "
         "id translation is decided by DECTAB); descriptor discipline of lazyproperty; read-only raw arrays; no module "
         "state; one-shot iterators are not cached for several readers; the raw response argument is only read through "
         "the normaliser (JSON / dict / envelope equivalence); who may call the two response-editing methods."
